@@ -110,6 +110,9 @@ MenuFaultEnum == Installs({"cA", "cH"}, B, B, F, F, F) \cup Upgrades({"cB", "cI"
 \* ownership family: a hook's name re-used by a template, with a stranger of that name arriving in between
 MenuOwnHookEnum == Installs({"cH"}, F, F, B, F, F) \cup Upgrades({"cU", "cA"}, F, F, {0}, F, B, F)
 EditsOwnHookEnum == {[kind |-> "oobnew", res |-> "h2", field |-> "", value |-> own] : own \in {"none", "othername", "me"}}
+\* ownership family: install --replace over a kept history with a stranger's object in the way
+MenuOwnReplaceEnum == Installs({"cA"}, B, F, F, B, F) \cup Uninstalls({TRUE}, F, F) \cup Upgrades({"cB"}, F, F, {0}, F, F, F)
+EditsOwnReplaceEnum == {[kind |-> "oobnew", res |-> r, field |-> "", value |-> "none"] : r \in {"r2", "r3"}}
 MenuLedgerEnum == Installs({"cA"}, B, F, F, F, F) \cup Upgrades({"cB"}, F, F, {0, 2}, F, F, F) \cup Rollbacks({0, 1}, {0}, F, F, F)
                   \cup Uninstalls(B, F, F) \cup UpInstalls({"cB"}, F, F, F, F, F)
 MenuHooksEnum == {U("test", "none")} \cup Installs({"cH", "cJ"}, F, F, B, F, F) \cup Upgrades({"cI", "cJ"}, F, F, {0}, F, F, F) \cup Rollbacks({0}, {0}, F, F, F)
